@@ -335,6 +335,19 @@ def loop_check(ctx, o):
     # edge kinds: recognise either the wait-for graph (nested `waits_for`) ...
     wf = prog.funcs.get(g.qual + '.waits_for')
     if wf is None:
+        # the successor function is whatever g iterates: iter(<h>(node)) with h a nested or module-level function
+        exg = Expander(prog, g, ctx.typer, inline=False)
+        cands = set()
+        for c in facts.calls_named(g, 'iter'):
+            if len(c.args) == 1 and isinstance(c.args[0], ast.Call):
+                h = exg._single_target(c.args[0])
+                if h is None and isinstance(c.args[0].func, ast.Name):
+                    h = prog.funcs.get(g.qual + '.' + c.args[0].func.id) or prog.funcs.get(g.module + '.' + c.args[0].func.id)
+                if h is not None and len(h.params) == 1:
+                    cands.add(h)
+        if len(cands) == 1:
+            wf = cands.pop()
+    if wf is None:
         # ... or the historical predecessor-only DFS
         rec = [c for c in facts.calls_named(g, g.name)]
         kinds = set()
